@@ -97,7 +97,11 @@ void *lltd_port_malloc(size_t n) {
     for (int i = 0; i < g_nfailalloc; i++) if (g_failalloc[i] == idx) return NULL;
     void *p = malloc(n);
     if (!p) { printf("! harness-oom\n"); fflush(stdout); _exit(3); }
+#ifdef VMSAN
+    /* MemorySanitizer build: fresh memory stays "uninitialised" so that its way into a transmitted frame is reported */
+#else
     memset(p, g_junk, n);
+#endif
     led_add(p, n);
     g_live++; g_bytes += (long)n;
     if (g_bytes > g_hiw) g_hiw = g_bytes;
@@ -129,6 +133,14 @@ static struct { int ctx; size_t n; uint8_t *b; } g_last[MAXLAST]; static int g_n
 static void last_reset(void) { for (int i = 0; i < g_nlast; i++) free(g_last[i].b); g_nlast = 0; }
 
 int lltd_port_send_frame(void *c, const void *f, size_t n) {
+#ifdef VMSAN
+    {   /* every byte handed to the wire must have been written by the core since the memory was obtained */
+        extern long __msan_test_shadow(const volatile void *x, unsigned long size);
+        long bad = __msan_test_shadow(f, n);
+        if (bad >= 0) { printf("! fault uninitialised-byte-%ld-of-%lu-transmitted\n", bad, (unsigned long)n); fflush(stdout); _exit(5); }
+    }
+#endif
+
     vctx *v = (vctx *)c;
     long idx = g_sends++;
     if (g_nlast < MAXLAST) { g_last[g_nlast].ctx = v ? v->id : -1; g_last[g_nlast].n = n; g_last[g_nlast].b = malloc(n ? n : 1); memcpy(g_last[g_nlast].b, f, n); g_nlast++; }
